@@ -1,6 +1,6 @@
 // Package c11: subcharts see only their own and global values; disabled ones vanish.
 //
-// Every generated dependency tree (root -> 1-3 children -> 0-2 grandchildren, aliases, the same chart
+// Every generated dependency tree (root -> 1-3 children -> 0-2 grandchildren -> 0-1 great-grandchildren, aliases, the same chart
 // used twice under different aliases) carries in each chart a probe template printing
 // `{{ toYaml .Values }}`, a hook, a CRD file and a tiny schema. Leaves are unique sentinels naming
 // their source (chart / section / user section / global), so the provenance of every printed leaf is
@@ -49,7 +49,7 @@ func init() {
 	core.Register(&core.Prop{
 		ID:    "C11",
 		Level: "exploration",
-		Rule: "exhaustive truth tables of the enabled rule (depth 1: 357 condition-path state combinations x 73 tag state combinations x alias; depth 2: 357 x alias of parent x alias of dependency x where the parent-level default lives) plus seeded random dependency trees to depth 3 with aliases, repeated dependencies, sentinel leaves, nested globals at every level, one isolation re-render per tree and an unlisted-subchart stratum; every tree is rendered through engine.Render and through a client-only dry-run install. " +
+		Rule: "exhaustive truth tables of the enabled rule (depth 1: 357 condition-path state combinations x 73 tag state combinations x alias; depth 2: 357 x alias of parent x alias of dependency x where the parent-level default lives; depth 3, i.e. four charts deep: the same 2,856 rows for top -> mid -> inner -> leaf) plus seeded random dependency trees (root -> children -> grandchildren -> great-grandchildren in about a third of the trees) with aliases, repeated dependencies, sentinel leaves, nested globals at every level, one isolation re-render per tree and an unlisted-subchart stratum; every tree is rendered through engine.Render and through a client-only dry-run install. " +
 			"evaluations counts renders. distinct_nontrivial counts distinct (condition shape, deciding clause, outcome) table cells and distinct tree shapes (per dependency: relation, alias, conditions/tags present, deciding clause, on/off) among trees that have a disabled or aliased dependency or more than one dependency.",
 		Assumptions: []string{
 			"the reference (ref.ApplyDefaults/MergeKeep + a 25-line enabled rule + top-down global merge) states the property's sentences",
@@ -74,6 +74,10 @@ func genCases(seed int64, tier string) []core.Case {
 	for lo := 0; lo < nRows2; lo += 476 {
 		hi := min(lo+476, nRows2)
 		out = append(out, core.Case{ID: fmt.Sprintf("table2-%d", lo), Data: core.J(caseData{Stratum: "table2", Lo: lo, Hi: hi, Only: -1})})
+	}
+	for lo := 0; lo < nRows3; lo += 476 {
+		hi := min(lo+476, nRows3)
+		out = append(out, core.Case{ID: fmt.Sprintf("table3-%d", lo), Data: core.J(caseData{Stratum: "table3", Lo: lo, Hi: hi, Only: -1})})
 	}
 	nt, per, nu := 16, 100, 4
 	if tier == "thorough" {
@@ -101,12 +105,16 @@ func run(c core.Case, verbose bool) core.Result {
 			}
 			checkTree(&res, table1Input(lo), lo, verbose)
 		}
-	case "table2":
+	case "table2", "table3":
 		for r := d.Lo; r < d.Hi; r++ {
 			if d.Only >= 0 && d.Only != r {
 				continue
 			}
-			checkTree(&res, table2Input(r), r, verbose)
+			if d.Stratum == "table3" {
+				checkTree(&res, table3Input(r), r, verbose)
+			} else {
+				checkTree(&res, table2Input(r), r, verbose)
+			}
 		}
 	default:
 		for i := d.Lo; i < d.Hi; i++ {
@@ -142,6 +150,8 @@ func post(a *core.Agg) string {
 	need := map[string]int64{
 		"truth_table_rows_table1":                          int64(nRows1),
 		"truth_table_rows_table2":                          int64(nRows2),
+		"truth_table_rows_table3":                          int64(nRows3),
+		"instances_four_charts_deep":                       1000,
 		"probes_parsed":                                    20000,
 		"sentinel_leaves_checked":                          20000,
 		"isolation_probe_pairs_compared":                   1000,
